@@ -904,6 +904,8 @@ func c10NetCode(c *Ctx) {
 					if HasCall(fn, sSetErr) {
 						dfn = fn
 					}
+				} else if sc := d.Call.StaticCallee(); sc != nil && len(sc.Blocks) > 0 && PkgOf(sc) == PkgOf(shoot) && HasCall(sc, sSetErr) {
+					dfn = sc // the deferred method of a small outcome object made for this shot (defer outcome.report())
 				}
 			}
 		})
@@ -915,8 +917,37 @@ func c10NetCode(c *Ctx) {
 			if ok {
 				arg := CC(se[0]).Args[1]
 				guarded := false
+				// (where the error lives in a field of the outcome object: the field, read again)
+				argField, _ := FieldOf(Strip(arg))
+				sameErr := func(v ssa.Value) bool {
+					if sameRoots(v, arg) {
+						return true
+					}
+					fv, _ := FieldOf(Strip(v))
+					return argField != nil && fv == argField
+				}
+				// errReaches: the error value e is what SetErr will see - the captured variable, or a store into that field
+				errReaches := func(e ssa.Value) bool {
+					if e == nil {
+						return false
+					}
+					if DerivesAny(arg, false, func(v ssa.Value) bool { return v == e }) {
+						return true
+					}
+					if argField == nil || e.Referrers() == nil {
+						return false
+					}
+					for _, r := range *e.Referrers() {
+						if st, isSt := r.(*ssa.Store); isSt && st.Val == e {
+							if fv, _ := FieldOf(st.Addr); fv == argField {
+								return true
+							}
+						}
+					}
+					return false
+				}
 				for _, f := range CmpFactsAt(se[0]) {
-					if f.Op == token.NEQ && IsNilConst(f.Y) && sameRoots(f.X, arg) {
+					if f.Op == token.NEQ && IsNilConst(f.Y) && sameErr(f.X) {
 						guarded = true
 					}
 				}
@@ -937,7 +968,7 @@ func c10NetCode(c *Ctx) {
 				fromDo := false
 				if do != nil {
 					e, _ := errResult(do)
-					fromDo = e != nil && DerivesAny(arg, false, func(v ssa.Value) bool { return v == e })
+					fromDo = errReaches(e)
 				}
 				ok = guarded && before && fromDo
 				c.Check(ok, "O10.4", fk(shoot)+":net-code-from-the-exchange-error", se[0].Pos(), fmt.Sprintf("SetErr(err) only on err != nil: %v; before Report: %v; err is (among others) the error of Client.Do: %v", guarded, before, fromDo))
@@ -971,17 +1002,7 @@ func c10NetCode(c *Ctx) {
 						if e == nil {
 							return false
 						}
-						stored := false
-						if rs := e.Referrers(); rs != nil {
-							for _, r := range *rs {
-								if st, isSt := r.(*ssa.Store); isSt && st.Val == e {
-									if DerivesAny(arg, false, func(v ssa.Value) bool { return v == e }) {
-										stored = true
-									}
-								}
-							}
-						}
-						return stored || DerivesAny(arg, false, func(v ssa.Value) bool { return v == e })
+						return errReaches(e)
 					}
 					errNil := func(op token.Token) func(ssa.Value) bool {
 						return func(v ssa.Value) bool {
@@ -1136,28 +1157,43 @@ func c10Tags(c *Ctx) {
 			arg := CC(in).Args[1]
 			if cl, _ := CallOfValue(arg); cl != nil && at != nil && cl.Call.StaticCallee() == at {
 				nAuto++
-				// Enabled true; and (NoTagOnly false or Tags()=="")
-				en := HasBoolFact(BoolFactsAt(in), IsFieldLoadPred("AutoTagConfig", "Enabled"), true)
-				// the block is reached from two edges: !NoTagOnly, or Tags()==""; check its predecessors
-				okDisj := true
-				b := in.Block()
-				for _, p := range b.Preds {
-					iff, ok := p.Instrs[len(p.Instrs)-1].(*ssa.If)
-					if !ok {
-						okDisj = false
-						continue
+				// Enabled && (!NoTagOnly || Tags() == ""): decided as a truth table - for each of the eight valuations of the
+				// three conditions (however they are combined: nested ifs, a named boolean, De Morgan) the auto tag is
+				// added on every path exactly when the formula holds
+				en, okDisj := true, true
+				var first ssa.Instruction
+				EachInstr(in.Parent(), func(i2 ssa.Instruction) {
+					if v, ok := i2.(ssa.Value); ok && first == nil && (IsFieldLoad(v, "AutoTagConfig", "Enabled") || IsFieldLoad(v, "AutoTagConfig", "NoTagOnly")) && InstrDominates(i2, in) {
+						first = i2
 					}
-					pol := p.Succs[0] == b
-					f := CondFact(iff.Cond, pol)
-					subj, sp := BoolSubject(iff.Cond)
-					switch {
-					case IsFieldLoad(subj, "AutoTagConfig", "NoTagOnly") && (pol == sp) == false:
-					case f.Op == token.EQL && f.Y != nil && isTagsEmpty(f):
-					case IsFieldLoad(subj, "AutoTagConfig", "Enabled"):
-						// single-condition form (NoTagOnly handled elsewhere) is not accepted
-						okDisj = false
-					default:
-						okDisj = false
+				})
+				tagsCmp := func(op token.Token) func(ssa.Value) bool {
+					return func(v ssa.Value) bool {
+						b, ok := v.(*ssa.BinOp)
+						return ok && b.Op == op && isTagsEmpty(Fact{Op: token.EQL, X: b.X, Y: b.Y})
+					}
+				}
+				if first == nil {
+					en, okDisj = false, false
+				} else {
+					for k := 0; k < 8; k++ {
+						E, N, T := k&1 != 0, k&2 != 0, k&4 != 0
+						iv := PathQuery{Fn: in.Parent(), Start: first, Shallow: true, Exit: func(*ssa.BasicBlock) bool { return false },
+							Stop: func(i2 ssa.Instruction) bool { return i2 == in },
+							Assume: []Assumption{
+								{Pred: IsFieldLoadPred("AutoTagConfig", "Enabled"), Val: E},
+								{Pred: IsFieldLoadPred("AutoTagConfig", "NoTagOnly"), Val: N},
+								{Pred: tagsCmp(token.EQL), Val: T}, {Pred: tagsCmp(token.NEQ), Val: !T},
+							}, Weight: func(ssa.Instruction) (int, int) { return 0, 0 }}.Count()
+						reaches := !iv.NoPath
+						want := E && (!N || T)
+						if reaches != want {
+							if !E {
+								en = false
+							} else {
+								okDisj = false
+							}
+						}
 					}
 				}
 				// arguments: URIElements and req.URL
